@@ -9,6 +9,9 @@ package webrtc
 //       defaults) by a locally registered codec;
 //   (2) it carries the remote's payload type;
 //   (3) a codec that only matches partially is not taken from a section that also offers an exactly matching one;
+//       this includes retransmission codecs, whose apt is a reference (remote apt -> codec of the remote section,
+//       local apt -> local codec): an offered rtx is matched exactly only by a local rtx registration that repairs a
+//       local codec matching the one the offered rtx repairs (c15RtxClass), a bare mime/clock match is partial;
 //   (4) its RTCP feedback is a subset of the remote's feedback for that payload type and of a matching local
 //       codec's feedback, and (for newly negotiated entries) equals such an intersection;
 //   (5) getCodecByPayload(pt) returns the negotiated codec whenever pt is in the negotiated set, even if a
@@ -229,6 +232,69 @@ func c15HasApt(c c15Codec) bool {
 	return ok
 }
 
+// c15RtxClass classifies an offered retransmission codec x (its fmtp carries apt=<remote payload type>) of the
+// section `sec` against the local registrations. An apt value is a reference, not a number with a meaning of its
+// own: the remote's apt names a codec M of the same section, a local rtx registration's apt names a local codec N.
+//
+//	lenient (widest reading of "matched exactly"): some local codec L with x's mime/clock/channels
+//	  - carries no apt at all (nothing to disagree on), or
+//	  - refers to a local codec N that has the mime/clock/channels of M (whatever the fmtp relation of N and M), or
+//	  - carries literally the same apt number as x;
+//	strict (narrowest reading): L refers to an N that matches M exactly under the narrowest reading.
+//
+// Anything else that shares mime/clock/channels with a local codec is a partial match only: the local side has a
+// retransmission codec, but none that repairs the codec the remote wants to repair with x.
+func c15RtxClass(x c15Codec, sec c15Sec, local []c15Codec) (strict, lenient int) {
+	px, _ := c15ParseFmtp(x.Fmtp)
+	apt, aptErr := strconv.Atoi(px["apt"])
+	var prim *c15Codec
+	if aptErr == nil {
+		for k := range sec.Codecs {
+			if sec.Codecs[k].PT == apt && sec.Codecs[k].PT != x.PT {
+				prim = &sec.Codecs[k]
+
+				break
+			}
+		}
+	}
+	for _, l := range local {
+		if !c15SameCodec(l, x) {
+			continue
+		}
+		if strict < c15Partial {
+			strict = c15Partial
+		}
+		if lenient < c15Partial {
+			lenient = c15Partial
+		}
+		pl, _ := c15ParseFmtp(l.Fmtp)
+		lapt, has := pl["apt"]
+		if !has {
+			lenient = c15Exact
+
+			continue
+		}
+		if lapt == px["apt"] {
+			lenient = c15Exact
+		}
+		q, err := strconv.Atoi(lapt)
+		if err != nil || prim == nil {
+			continue
+		}
+		for _, n := range local {
+			if n.PT != q || !c15SameCodec(n, *prim) {
+				continue
+			}
+			lenient = c15Exact
+			if s, _ := c15FmtpRel(n, *prim); s && !c15HasApt(n) && !c15HasApt(*prim) {
+				strict = c15Exact
+			}
+		}
+	}
+
+	return strict, lenient
+}
+
 func c15Set(xs []string) map[string]bool {
 	m := map[string]bool{}
 	for _, x := range xs {
@@ -337,12 +403,16 @@ type c15Oracle struct {
 	legal   []bool
 	multi   bool
 
-	ptDiffers   bool // some negotiated codec carries a PT no matching local codec has
-	anyNeg      bool
-	mixedSecs   int
-	collisions  int
-	newEntries  int
-	divergences []string
+	ptDiffers bool // some negotiated codec carries a PT no matching local codec has
+	anyNeg    bool
+	mixedSecs int
+
+	rtxPartialBesideExact   int // offered rtx that is only a partial match, in a section that also offers an exact match
+	rtxPartialNotNegotiated int // ... and that is absent from the negotiated set afterwards
+	rtxExactBesideExact     int
+	collisions              int
+	newEntries              int
+	divergences             []string
 }
 
 func (o *c15Oracle) detail(extra map[string]any) map[string]any {
@@ -553,6 +623,23 @@ func (o *c15Oracle) afterRemote(me *MediaEngine, text string) { //nolint:gocogni
 			if hasE && hasP {
 				o.mixedSecs++
 			}
+			// retransmission codecs the local side can only match partially (it has an rtx registration, but none that
+			// repairs the codec this one repairs), offered next to an exactly matching codec
+			for _, x := range s.Codecs {
+				if !c15HasApt(x) || !hasE {
+					continue
+				}
+				rs, rl := c15RtxClass(x, s, o.local[kind])
+				switch {
+				case rl == c15Partial:
+					o.rtxPartialBesideExact++
+					if !negPT[x.PT] {
+						o.rtxPartialNotNegotiated++
+					}
+				case rs == c15Exact:
+					o.rtxExactBesideExact++
+				}
+			}
 		}
 		for _, e := range neg[kind] {
 			if before[e.PT] {
@@ -585,6 +672,51 @@ func (o *c15Oracle) afterRemote(me *MediaEngine, text string) { //nolint:gocogni
 				p, _ := c15ParseFmtp(e.Fmtp)
 				if apt, err := strconv.Atoi(p["apt"]); err != nil || !negPT[apt] {
 					o.diverge("rtx-negotiated-without-negotiated-primary")
+				}
+				// (3) exact preferred over partial, for a retransmission codec: its apt is a reference into the remote's
+				// section, so "exact" means a local rtx registration that repairs a local codec matching the referenced one.
+				allBad, allBadLenient := true, true
+				var witness []c15Codec
+				for _, c := range cands {
+					rs, rl := c15RtxClass(c.off, c.sec, o.local[kind])
+					exactStrict, exactLenient := false, false
+					var w c15Codec
+					for _, x := range c.sec.Codecs {
+						if c15HasApt(x) || x.PT == c.off.PT {
+							continue
+						}
+						xs, xl := c15Class(x, o.local[kind])
+						if xs == c15Exact {
+							exactStrict = true
+							w = x
+						}
+						if xl == c15Exact {
+							exactLenient = true
+						}
+					}
+					if !(rl == c15Partial && exactStrict) {
+						allBad = false
+					} else {
+						witness = append(witness, w)
+					}
+					if !(rs <= c15Partial && exactLenient) || rl == c15None {
+						allBadLenient = false
+					}
+				}
+				switch {
+				case allBad:
+					var localRtx []c15Codec
+					for _, l := range o.local[kind] {
+						if c15SameCodec(l, e) {
+							localRtx = append(localRtx, l)
+						}
+					}
+					o.violation("partial-rtx-used-despite-exact", fmt.Sprintf("%s retransmission codec %s is negotiated although it only matches partially: no local "+
+						"registration of its mime type repairs a local codec that matches the codec it refers to (local rtx registrations: %v), and every section "+
+						"offering it also offers an exactly matching codec (e.g. %v): exact matches were not preferred", kind, e, localRtx, witness),
+						map[string]any{"entry": e, "local_rtx": localRtx, "exact_candidates": witness})
+				case allBadLenient:
+					o.diverge("rtx-exact-vs-partial-undecided-by-statement")
 				}
 			} else {
 				// (3) exact preferred over partial
@@ -1664,6 +1796,12 @@ func TestVerifC15(t *testing.T) { //nolint:gocognit,cyclop,gocyclo,maintidx
 			run.Count("cases_with_negotiated_codecs", 1)
 		}
 		run.Count("sections_offering_exact_and_partial_only", o.mixedSecs)
+		run.Count("rtx_offers_partial_only_beside_exact_codec", o.rtxPartialBesideExact)
+		run.Count("rtx_offers_partial_only_beside_exact_codec_not_negotiated", o.rtxPartialNotNegotiated)
+		run.Count("rtx_offers_exact_beside_exact_codec", o.rtxExactBesideExact)
+		if o.rtxPartialBesideExact > 0 {
+			run.Count("cases_with_partial_only_rtx_beside_exact_codec", 1)
+		}
 		run.Count("lookups_where_remote_pt_collides_with_other_local_codec", o.collisions)
 		run.Count("newly_negotiated_entries_checked", o.newEntries)
 		ne, np := 0, 0
